@@ -377,4 +377,42 @@ def srsAll (o : Opts) (Q sr : α) (freqs : List α) (cols : List (List α)) :
   freqs.map fun f => cols.map fun sig => srsCol o Q sr freqs f sig
 
 end pipe
+
+/-! ### srs.vrs: area weights ("delta_f for area calculation") and the SDOF transmissibility -/
+section vrs
+variable {α : Type} [Add α] [Sub α] [Mul α] [Div α] [OfNat α 0] [OfNat α 1] [OfNat α 2] [TransOps α]
+
+/-- `Σ_{i>=1} df_i g_i` given the previous grid point `p` and the current point `(c, gc)`:
+interior `df_i = (f_{i+1} - f_{i-1}) / 2`, last `df = f_last - f_{last-1}` -/
+def vrsInner : α → α → α → List (α × α) → α
+  | p, c, gc, [] => (c - p) * gc
+  | p, c, gc, (n, gn) :: rest => (n - p) / 2 * gc + vrsInner c n gn rest
+
+/-- `np.sum(df * g)` with the code's `df` (`df[0] = f_1 - f_0`); `none` for fewer than two grid
+points (the code raises IndexError) -/
+def vrsSum : List (α × α) → Option α
+  | (f0, g0) :: (f1, g1) :: rest => some ((f1 - f0) * g0 + vrsInner f0 f1 g1 rest)
+  | _ => none
+
+/-- `(1 + (2ζp)²) / ((1 - p²)² + (2ζp)²)`, `p = f / fn` -/
+def vrsGain (zeta fn f : α) : α :=
+  let p := f / fn
+  let p2z2 := (2 * zeta * p) * (2 * zeta * p)
+  (1 + p2z2) / ((1 - p * p) * (1 - p * p) + p2z2)
+
+/-- `z_vrs` for one oscillator `fn` over the grid points `(freq_i, psd_i)` -/
+def vrsOne (Q fn : α) (pts : List (α × α)) : Option α :=
+  (vrsSum (pts.map fun fs => (fs.1, vrsGain (1 / 2 / Q) fn fs.1 * fs.2))).map TransOps.sqrt
+
+/-- the trapezoid rule on the points `(f_i, g_i)` -/
+def trapz : List (α × α) → α
+  | (f0, g0) :: (f1, g1) :: rest => (f1 - f0) * (g0 + g1) / 2 + trapz ((f1, g1) :: rest)
+  | _ => 0
+
+/-- half of the last cell times the last ordinate -/
+def endHalf : α → α → α → List (α × α) → α
+  | p, c, gc, [] => (c - p) / 2 * gc
+  | _, c, _, (n, gn) :: rest => endHalf c n gn rest
+
+end vrs
 end PyYetiVerif.Srs
